@@ -126,6 +126,23 @@ def run_shard(spec, seed):
     return progrun.run_program_shard(spec, seed, check, nontrivial, exclude_only=EXCLUDE, strategy_kwargs=kw)
 
 
+def region_shared_source_under_slices(case):
+    """A variable consumed by >= 2 statements (or twice by one) in a program that also has a basic slice:
+    whether a slice is pushed into a shared node depends on what its other consumers have already become,
+    so one optimisation pass need not reach the fixpoint."""
+    prog = case["program"]
+    return P.shares_variable(prog) and any(s["op"] in ("getitem", "getitem_list", "take") for s in prog["stmts"])
+
+
+def _register():
+    from vf import known
+
+    known.PREDICATES["c08:KF-optimize-not-idempotent-shared-slices"] = region_shared_source_under_slices
+
+
+_register()
+
+
 def plan(tier):
     specs = progrun.plan_cases(tier, 3200, 300000)
     for i, s in enumerate(specs):
